@@ -101,7 +101,7 @@ CmpVerdict(op, a, b, st) ==
   LET ra == Rank(a.k) rb == Rank(b.k) IN
   IF ra > 0 /\ rb > 0 /\ ra # rb THEN (IF Wrapped(a) /\ Wrapped(b) THEN V(st.o = "panic") ELSE "skip")
   ELSE IF st.o = "skip" THEN "skip"
-  ELSE IF ~(Tame(a) /\ Tame(b)) THEN "skip"
+  ELSE IF ~(CmpTame(a) /\ CmpTame(b)) THEN "skip"
   ELSE V(st.o = "ok" /\ st.res.k = "B" /\ st.res.b = CmpWant(op, a, b))
 
 \* ------------------------------------------------------------------ sums and identities
